@@ -140,7 +140,9 @@ def run(ctx):
                         from props import C10
                         N = hirq.Body(f, C10.stream_body(f, 'next_inner'))
                         ctx.analysed['bodies'].add(N.path)
-                        transfers = donectrls.stream_transfers(f, N, [x for x in C10.run_from(f, N, 'Active') if x.kind in ('val', 'ret')], C10.stored_final_result)
+                        # (a path of next_inner that ends the stream without storing a final result is C10 Q2's finding, not a statement
+                        # about controls: the composition is decided on the paths that do store one - at least one, or fail closed)
+                        transfers = [t for t in donectrls.stream_transfers(f, N, [x for x in C10.run_from(f, N, 'Active') if x.kind in ('val', 'ret')], C10.stored_final_result) if t[1]]
                     bad = [(R_, S_, T_) for R_, S_ in done_pairs.get(node.get('id'), []) for T_, okst, _o in transfers if donectrls.compose(T_, R_, S_) != donectrls.EXACT]
                     ok_c = bool(done_pairs.get(node.get('id'))) and bool(transfers) and not bad
                     why = 'the final result of the search cannot be followed from this send to SearchStream::next_inner'
